@@ -9,6 +9,7 @@ import time
 import codec
 import crash
 import dmg
+import flk
 import gens
 import kv
 import recov
@@ -526,6 +527,22 @@ reg(HistProp('C05', cfg_c07, probes_scan, quick=40, thorough=600,
 reg(HistProp('C06', cfg_c07, probes_c02, quick=40, thorough=600,
              rule='power-loss images: coverage.crash; the history part keeps Sync/NextOffset of the model tied',
              nontrivial=has_multi_layout, extra=crash.c06_extra))
+def cfg_c19(rng):
+    p = prof_base(rng, p_ro=0.6, p_rmindex=0.3)
+    p['weights'] = w(reopen=35)
+    return p
+
+
+def probes_c19(sh, rng):
+    return ['probe scan', 'probe get 1', 'stat'] + (['probe keys ' + KEYLIST] if rng.random() < 0.4 else []) + \
+           (['pub 100|61|01'] if sh.ro and rng.random() < 0.3 else []) + (['del 0'] if sh.ro and rng.random() < 0.2 else [])
+
+
+reg(HistProp('C19', cfg_c19, probes_c19, quick=250, thorough=6000,
+             rule='history half: 60% of reopens are read-only (with and without index files, empty / single / multi-segment), all '
+                  'queries checked by the same L0 checkers as on read-write handles, Publish/Delete on read-only handles must be '
+                  'ErrReadonly; lock half: coverage.flock', nontrivial=has_multi_layout,
+             also=('C01', 'C03', 'C04', 'C09'), extra=flk.c19_extra))
 reg(HistProp('C20', cfg_c20, probes_c20, quick=400, thorough=12000,
              rule='Log.Backup into fresh directories and repeated into the same directory after publish-only steps; each backup is '
                   'checked (Segment.Check of every file), opened read-write or read-only and fully observed (scan, Get of every '
